@@ -15,6 +15,7 @@ package validatorapi
 import (
 	"context"
 	"encoding/binary"
+	"errors"
 	"fmt"
 	"reflect"
 	"regexp"
@@ -38,6 +39,7 @@ import (
 	"github.com/attestantio/go-eth2-client/spec/electra"
 	eth2p0 "github.com/attestantio/go-eth2-client/spec/phase0"
 
+	"github.com/obolnetwork/charon/app/eth2wrap"
 	"github.com/obolnetwork/charon/core"
 	"github.com/obolnetwork/charon/tbls"
 	"github.com/obolnetwork/charon/testutil"
@@ -910,12 +912,23 @@ func c10clone[T any](x T) T { return c10deep(reflect.ValueOf(x)).Interface().(T)
 
 // c10case is the replayable description of one evaluated case.
 type c10case struct {
-	Path  string `json:"path"`  // vapi | peer
+	Path  string `json:"path"`  // vapi | peer (single call), <path>-seq, <path>-fault, peer-gater, peer-slot, peer-shareidx
 	Unit  string `json:"unit"`  // endpoint/version or duty type/version
 	Alt   string `json:"alt"`   // alteration kind
 	Field string `json:"field"` // leaf path for field alterations
 	FAlt  string `json:"falt"`
 	Rot   int    `json:"maprot"`
+	// dimensions added on top of the single-call enumeration
+	Seq    []string   `json:"seq,omitempty"`    // operation descriptors submitted, in order, to ONE long-lived instance
+	At     int        `json:"at,omitempty"`     // index in Seq of the operation the verdict is about
+	Faults []c10fault `json:"faults,omitempty"` // beacon node fault script in force during the (last) call
+	Num    string     `json:"num,omitempty"`    // boundary value (decimal) of the peer-controlled integer
+}
+
+// c10fault: the K-th (1-based) invocation of a beacon node method made by the component fails in the way Kind says.
+type c10fault struct {
+	K    int    `json:"k"`
+	Kind string `json:"kind"` // error | deadline | empty (Spec answers without any key)
 }
 
 func (c c10case) key() string {
@@ -926,7 +939,161 @@ func (c c10case) key() string {
 			k += "#" + c.FAlt
 		}
 	}
+	if len(c.Seq) > 0 {
+		k = c.Path + ":" + strings.Join(c.Seq, " > ")
+	}
+	for _, f := range c.Faults {
+		k += fmt.Sprintf(" !%d:%s", f.K, f.Kind)
+	}
+	if c.Num != "" {
+		k += " #" + c.Num
+	}
 	return k
+}
+
+// ---- scripted beacon node faults ---------------------------------------------------------------------------
+
+// c10fc wraps the (healthy) beacon mock: every invocation of a method the verification paths use is numbered, and the
+// invocations named by the script fail. With an empty script it is transparent and only counts.
+type c10fc struct {
+	eth2wrap.Client
+	n      int            // invocations so far
+	trace  []string       // method name per invocation
+	script map[int]string // invocation number (1-based) -> fault kind
+	fired  int            // faults really injected
+}
+
+var (
+	errC10bn    = errors.New("c10: scripted beacon node failure")
+	errC10empty = errors.New("c10: empty answer")
+)
+
+func (f *c10fc) arm(script []c10fault) {
+	f.n, f.fired, f.trace, f.script = 0, 0, nil, map[int]string{}
+	for _, s := range script {
+		f.script[s.K] = s.Kind
+	}
+}
+
+func (f *c10fc) hit(method string) error {
+	f.n++
+	f.trace = append(f.trace, method)
+	switch f.script[f.n] {
+	case "":
+		return nil
+	case "deadline":
+		f.fired++
+		return context.DeadlineExceeded
+	case "empty":
+		if method != "Spec" {
+			return nil
+		}
+		f.fired++
+		return errC10empty
+	}
+	f.fired++
+	return errC10bn
+}
+
+func (f *c10fc) Spec(ctx context.Context, o *eth2api.SpecOpts) (*eth2api.Response[map[string]any], error) {
+	if err := f.hit("Spec"); err == errC10empty {
+		return &eth2api.Response[map[string]any]{Data: map[string]any{}, Metadata: map[string]any{}}, nil
+	} else if err != nil {
+		return nil, err
+	}
+	return f.Client.Spec(ctx, o)
+}
+
+func (f *c10fc) Domain(ctx context.Context, dt eth2p0.DomainType, epoch eth2p0.Epoch) (eth2p0.Domain, error) {
+	if err := f.hit("Domain"); err != nil {
+		return eth2p0.Domain{}, err
+	}
+	return f.Client.Domain(ctx, dt, epoch)
+}
+
+func (f *c10fc) GenesisDomain(ctx context.Context, dt eth2p0.DomainType) (eth2p0.Domain, error) {
+	if err := f.hit("GenesisDomain"); err != nil {
+		return eth2p0.Domain{}, err
+	}
+	return f.Client.GenesisDomain(ctx, dt)
+}
+
+func (f *c10fc) ActiveValidators(ctx context.Context) (eth2wrap.ActiveValidators, error) {
+	if err := f.hit("ActiveValidators"); err != nil {
+		return nil, err
+	}
+	return f.Client.ActiveValidators(ctx)
+}
+
+func (f *c10fc) CompleteValidators(ctx context.Context) (eth2wrap.CompleteValidators, error) {
+	if err := f.hit("CompleteValidators"); err != nil {
+		return nil, err
+	}
+	return f.Client.CompleteValidators(ctx)
+}
+
+func (f *c10fc) Genesis(ctx context.Context, o *eth2api.GenesisOpts) (*eth2api.Response[*eth2v1.Genesis], error) {
+	if err := f.hit("Genesis"); err != nil {
+		return nil, err
+	}
+	return f.Client.Genesis(ctx, o)
+}
+
+func (f *c10fc) ForkSchedule(ctx context.Context, o *eth2api.ForkScheduleOpts) (*eth2api.Response[[]*eth2p0.Fork], error) {
+	if err := f.hit("ForkSchedule"); err != nil {
+		return nil, err
+	}
+	return f.Client.ForkSchedule(ctx, o)
+}
+
+func (f *c10fc) SlotsPerEpoch(ctx context.Context) (uint64, error) {
+	if err := f.hit("SlotsPerEpoch"); err != nil {
+		return 0, err
+	}
+	return f.Client.SlotsPerEpoch(ctx)
+}
+
+func (f *c10fc) SlotDuration(ctx context.Context) (time.Duration, error) {
+	if err := f.hit("SlotDuration"); err != nil {
+		return 0, err
+	}
+	return f.Client.SlotDuration(ctx)
+}
+
+func (f *c10fc) Validators(ctx context.Context, o *eth2api.ValidatorsOpts) (*eth2api.Response[map[eth2p0.ValidatorIndex]*eth2v1.Validator], error) {
+	if err := f.hit("Validators"); err != nil {
+		return nil, err
+	}
+	return f.Client.Validators(ctx, o)
+}
+
+// c10faultKinds are the ways one invocation can fail.
+var c10faultKinds = []string{"error", "deadline", "empty"}
+
+// c10faultScripts lists every single fault point of a call that makes n invocations (trace names them) and, if pairs
+// is set, every pair of fault points (error/deadline only).
+func c10faultScripts(trace []string, pairs bool) [][]c10fault {
+	var out [][]c10fault
+	for k := 1; k <= len(trace); k++ {
+		for _, kind := range c10faultKinds {
+			if kind == "empty" && trace[k-1] != "Spec" {
+				continue
+			}
+			out = append(out, []c10fault{{k, kind}})
+		}
+	}
+	if pairs {
+		for k1 := 1; k1 <= len(trace); k1++ {
+			for k2 := k1 + 1; k2 <= len(trace); k2++ {
+				for _, a := range c10faultKinds[:2] {
+					for _, b := range c10faultKinds[:2] {
+						out = append(out, []c10fault{{k1, a}, {k2, b}})
+					}
+				}
+			}
+		}
+	}
+	return out
 }
 
 type c10viol struct{ sig, desc string }
@@ -980,6 +1147,10 @@ type c10vapi struct {
 	comp   *Component
 	calls  []c10call
 	agreed map[uint64]*eth2api.VersionedProposal
+	// extraProp: further proposer duties (slot -> validator) the duty definitions know about (cross-endpoint replays
+	// need a proposer duty in the slot whose epoch number equals another object's slot number).
+	extraProp map[uint64]*c10val
+	lastErr   error // the handler's answer to the most recent submit (a recovered panic counts as an error)
 }
 
 type c10endpoint struct {
@@ -1040,8 +1211,18 @@ func c10newVapi(ctx context.Context) (*c10vapi, error) {
 	if err != nil {
 		return nil, err
 	}
+	return c10newVapiOn(ctx, cl.bmock)
+}
+
+// c10newVapiOn builds a new Component instance (verification on) that talks to bn: the beacon mock itself or the
+// fault-scripting wrapper around it.
+func c10newVapiOn(ctx context.Context, bn eth2wrap.Client) (*c10vapi, error) {
+	cl, err := c10setup(ctx)
+	if err != nil {
+		return nil, err
+	}
 	h := &c10vapi{cl: cl, agreed: map[uint64]*eth2api.VersionedProposal{}}
-	comp, err := NewComponent(cl.bmock, cl.lock, c10Self, func(core.PubKey) string { return "0x0000000000000000000000000000000000000001" }, true, 30000000)
+	comp, err := NewComponent(bn, cl.lock, c10Self, func(core.PubKey) string { return "0x0000000000000000000000000000000000000001" }, true, 30000000)
 	if err != nil {
 		return nil, err
 	}
@@ -1064,6 +1245,9 @@ func c10newVapi(ctx context.Context) (*c10vapi, error) {
 				if uint64(v.PropSlot) == duty.Slot {
 					return core.DutyDefinitionSet{v.PK: core.NewProposerDefinition(&eth2v1.ProposerDuty{PubKey: eth2p0.BLSPubKey(v.Pub), Slot: v.PropSlot, ValidatorIndex: v.Idx})}, nil
 				}
+			}
+			if v, ok := h.extraProp[duty.Slot]; ok {
+				return core.DutyDefinitionSet{v.PK: core.NewProposerDefinition(&eth2v1.ProposerDuty{PubKey: eth2p0.BLSPubKey(v.Pub), Slot: eth2p0.Slot(duty.Slot), ValidatorIndex: v.Idx})}, nil
 			}
 		}
 		return nil, fmt.Errorf("no duty definition for %v", duty)
@@ -1305,7 +1489,7 @@ func (h *c10vapi) resolve(item any) (v *c10val) {
 				return v
 			}
 		}
-		return nil
+		return h.extraProp[uint64(s)]
 	}
 	switch o := item.(type) {
 	case *eth2spec.VersionedAttestation:
@@ -1408,6 +1592,7 @@ func (h *c10vapi) judge(r *enumx.Run, e c10endpoint, req any, mode string, want 
 		allValid = allValid && ok
 	}
 	err, calls, panicked := h.submit(e, req)
+	h.lastErr = err
 	if r != nil {
 		r.Steps(1)
 		if panicked {
@@ -1708,8 +1893,8 @@ func TestVerifC10vapi(t *testing.T) {
 	eps := c10endpoints(enumx.Thorough())
 	if r.ReplayPath != "" {
 		var c c10case
-		if err := r.ReplayCase(&c); err != nil || c.Path != "vapi" {
-			return // not a validator API replay
+		if err := r.ReplayCase(&c); err != nil || c10vapiReplayExtra(ctx, r, h, c) || c.Path != "vapi" {
+			return // not a validator API replay, or a replay of one of the added dimensions
 		}
 		for _, e := range c10endpoints(true) {
 			if e.unit() == c.Unit {
@@ -1755,4 +1940,5 @@ func TestVerifC10vapi(t *testing.T) {
 		}
 		r.Sample(map[string]any{"path": "vapi", "unit": e.unit(), "leaves": len(leaves), "targeted": len(c10vapiTargeted(e))})
 	}
+	c10vapiExtra(ctx, r, h) // operation sequences and beacon node faults (zz_verif_c10x_test.go)
 }
